@@ -20,6 +20,7 @@ from lib.coexec import *
 from lib.csem import cprog_record, run_csem
 from lib.features import features
 from lib.shrink import shrink
+from lib.gentab import run_gentab
 
 LEVEL = 'proof'
 
@@ -190,6 +191,8 @@ def run(ctx):
     if th:
         ctx.proof_stage('Props.C15', th)
     findings = [f for f in ctx.findings if f.get('status') == 'open']
+    ncell, tab_mism, _ = run_gentab()
+    ctx.cov['correspondence']['corr-M generator comparison tables'] = {'cells': ncell, 'mismatches': len(tab_mism), 'exhaustive': True}
     n_prog = 400 if quick else 8000
     stats = {}
     kinds = {}
@@ -199,7 +202,7 @@ def run(ctx):
         pairs = {}
         applied = {}
         for i in range(n_prog):
-            p = gen_program(rng, dict(signed=(i % 3 == 0), shorts=(i % 2 == 0), bait=(i % 5 == 0)))
+            p = gen_program(rng, dict(signed=(i % 3 == 0), shorts=(i % 2 == 0), bait=(i % 3 == 0)))
             rw = Rewriter(rng, 0.5)
             q = rw.program(p)
             if not rw.applied:
@@ -250,12 +253,16 @@ def run(ctx):
                          'rewrites': applied[pid], 'detail': d, 'level': O, 'original': small_a.source(), 'rewritten': small_b.source(),
                          'features': sorted(fs)})
     ctx.cov['programs'] = sum(stats.values())
+    ctx.cov['evaluations'] = sum(stats.values()) + ncell
     ctx.cov['distinct_nontrivial'] = stats.get('agree', 0)
     ctx.cov['traces_validated_against_impl'] = stats.get('agree', 0)
     ctx.cov['correspondence']['corr-S metamorphic co-execution'] = {'outcomes': stats, 'rewrites_applied': kinds}
     ctx.sample({'rewrites': list(kinds.keys())})
     for v in viol[:3]:
         ctx.violation('equiv', v)
+    if tab_mism and not viol:
+        ctx.violation_noinput('Model/GenTables.v no longer matches the generator on %d of %d cells; first: %s'
+                              % (len(tab_mism), ncell, json.dumps(tab_mism[0])[:1500]), 'corr-M:gen_tables')
     ctx.cov['rule'] = ('generated programs and a copy with random subsets of rewrite sites rewritten: commuted + & | ^, swapped < > <= >=, '
                        'compound assignment unfolded/folded, ++/-- as += / -= 1, if/else with negated condition, for as while; '
                        'non-trivial = pairs with at least one rewrite whose executions agree on every decided state')
